@@ -347,6 +347,8 @@ def expression(ctx, case):
             ctx.check('%s of `%s` selects the message iff the documented meaning says so' % (label, text), R.b_not(mustnot) if got else R.b_not(must))
             # matching is a function of the matcher text and the message alone: the same matcher after it has looked at other messages (a filter in
             # the middle of a session, `list` over a long history) answers as a freshly parsed one does - also where the documentation leaves the answer open
+            if tier == 'quick' and idx % 2 == 1:
+                continue        # quick tier: every other expression of the family (all of them in the thorough tier)
             warm = matcher.parse(text).simplify()
             for wm in _warmup_messages(msg):
                 warm.matches(wm)
